@@ -7,6 +7,7 @@ CollideFlat == << <<"a", "a">>, <<"a">> >>
 ZonesD2     == {"single", "flat", "wild", "ent", "deleg", "dname", "entwild", "optout"}
 ZonesD3     == ZonesD2 \cup {"deep", "deepcut", "deepopt", "deepent"}
 ZonesCache  == {"flat", "wild", "ent", "deleg", "dname", "optout"}
+ZonesCacheQ == {"wild", "deleg"}
 ZonesCache3 == ZonesD3
 NoPol       == {}
 AllPol      == {"sibling", "child", "param"}
